@@ -13,7 +13,9 @@ dicts that reached `Destinations.send`), `Eliot/Model/Parse.lean` (`parseStream`
 **Quantifier.**  Every *structured* program (`Block.structured`, `Eliot/Proofs/SysEmit.lean`): any
 nesting and sequence of `with start_action(..)` / `with start_task(..)` / `with ActionType(..)`
 blocks (typed or untyped), `log_message` / `MessageType.log`, `add_success_fields`, `raise` of any
-application exception, `try/except` whose handler may call `write_traceback()`, probes — started
+application exception, `try/except` whose handler may call `write_traceback()`, probes, and the
+explicit spelling of an action (`x = start_action(..)`; `with x.context():` / `x.run(..)` segments;
+`x.finish(..)`: see the section "The explicit spelling of an action" below) — started
 outside any action, after `add_destinations(*ds)`.  Every environment `env` such that (`EnvOK`)
 field serializers are functions that do not raise (`σ`), registered exception extractors — for any
 classes, returning any fields, possibly different ones on every call — do not raise (one that raises
@@ -27,7 +29,8 @@ serializer runs; `clean` = no typed field is declared under one of the five keys
 and no plain message has a field called `action_type`/`action_status` (for the `eliot:traceback`
 message that is a condition on what the extractor returns: `extClean`, `tb_clean`, `extOf_clean`; in a
 failed end message all five keys are written over the extracted fields, so nothing is required).  Explicit handles
-(`finish`, `x.context()`, `x.run`), `serialize_task_id`/`continue_task`, and changing
+used in any other way than that pattern (an action left unfinished, finished twice, logged into while
+a child is open, handles passed around), `serialize_task_id`/`continue_task`, and changing
 destinations / global fields *while* the program runs are outside this fragment (C02/C04/C06 treat
 them); global fields are empty.
 
@@ -534,6 +537,121 @@ example : ∃ out, PM.parseStream ((execB exEnvX none {} (.cons (.addDests [1, 2
     simpa [List.filterMap_map, Function.comp_def] using this
   rw [this]
   exact hp _ (List.reverse_perm l)
+
+/-! ## The explicit spelling of an action
+
+`x = start_action(sp)` (or `start_task`), then any number of `with x.context(): body` /
+`x.run(lambda: body)` segments whose bodies are structured, do not rebind `x` and end normally, then
+`x.finish()` / `x.finish(exc)` — all adjacent in one block — is part of `Block.structured`
+(`Block.structuredX`), so `emitted_is_forest`, `roundtrip`, `roundtrip_file` cover it.  A segment body that
+raises would leave the action unfinished (the exception leaves the block before `finish`); that is
+excluded through the decidable `wf` (`denX`: `wf = false`), the parser's treatment of unfinished
+actions is C09's.  What such a program performed is the *same node* as the `with` block's: -/
+
+/-- **explicit_node.**  The node closed by `x.finish(exc)` after segments that performed `rb.f`,
+collected success fields `rb.s` and left the counters at `rb.ds` is exactly the node of
+`with start_action(sp): …` whose body did the same and ended with `finRes exc` (`ok` for `finish()`,
+`raised e` for `finish(e)`): same start and end ticks, fields, extracted fields, children; the counters
+afterwards agree too.  The difference is control flow only: the outcome of `finish(e)` is `ok`. -/
+theorem explicit_node (env : Env) (sepr : Bool) (sp : Spec) (d : DS) (s : Fields) (rb : R) (exc : Option Nat) :
+    (closeR env sepr sp d s rb.f rb.s (finRes exc) rb.ds).f = (withR env sepr sp d s { rb with out := finRes exc }).f ∧
+    (closeR env sepr sp d s rb.f rb.s (finRes exc) rb.ds).ds = (withR env sepr sp d s { rb with out := finRes exc }).ds ∧
+    (closeR env sepr sp d s rb.f rb.s (finRes exc) rb.ds).out = .ok := ⟨rfl, rfl, rfl⟩
+
+/-- **explicit_same_as_with.**  `x = start_action(sp); with x.context(): body; x.finish()` (or `x.run`)
+followed by `rest` has the same denotation — forest, outcome, success fields of the enclosing action,
+counters, well-formedness — as `with start_action(sp): body` followed by `rest`, whenever the body
+ends normally. -/
+theorem explicit_same_as_with (env : Env) (cur : Option Exc) (inAct : Bool) (x : Nat) (task : Bool) (sp : Spec)
+    (body rest : Block) (d : DS) (s : Fields) (viaRun : Bool)
+    (hok : (denB env cur true body
+      { tick := d.tick + 1, nu := if (task || !inAct) = true then d.nu + 1 else d.nu, ex := d.ex } []).out = .ok) :
+    denB env cur inAct
+        (.cons (.startAs x task sp) (.cons (if viaRun then .runIn x body else .inContext x body) (.cons (.finish x none) rest))) d s =
+      denB env cur inAct (.cons (.withAction task sp body) rest) d s := by
+  rw [denB_start, denB_cons _ _ _ _ _ _ _ (by intro _ _ _ h; cases h), denS_with]
+  have hw : (withR env (task || !inAct) sp d s (denB env cur true body
+      { tick := d.tick + 1, nu := if (task || !inAct) = true then d.nu + 1 else d.nu, ex := d.ex } [])).out = .ok := hok
+  cases viaRun
+  · simp only [Bool.false_eq_true, if_false, denX_ctx, segR, hok, denX_finish, hw]
+    simp only [closeR, withR, finRes, extOut, hok, F.append, Bool.and_assoc]
+  · simp only [if_true, denX_run, segR, hok, denX_finish, hw]
+    simp only [closeR, withR, finRes, extOut, hok, F.append, Bool.and_assoc]
+
+/-- the explicit spelling, at top level and nested, succeeding and failing: an action `a` spelled
+`x0 = start_action; with x0.context(): …; x0.finish()` holding a message, a `with` block and an action
+`b` spelled with `x1.run` and finished with exception 1 (class `Mid`: `Base`'s extractor), then a
+message; then a task spelled explicitly with two context segments -/
+def exProgE : Block :=
+  .cons (.startAs 0 false { atype := "a", fields := [("x", .nat 1)], sers := some ([("x", 7)], [("y", 8)]) })
+  (.cons (.inContext 0
+    (.cons (.log { mtype := "m" })
+    (.cons (.addSuccess none [("y", .nat 2)])
+    (.cons (.withAction false { atype := "w" } (.cons (.log { mtype := "in-w" }) .nil))
+    (.cons (.startAs 1 false { atype := "b" })
+    (.cons (.runIn 1 (.cons (.log { mtype := "in-b" }) .nil))
+    (.cons (.finish 1 (some 1))
+    (.cons (.log { mtype := "after-b" }) .nil))))))))
+  (.cons (.finish 0 none)
+  (.cons (.startAs 0 true { atype := "t" })
+  (.cons (.inContext 0 (.cons (.log { mtype := "t1" }) .nil))
+  (.cons (.runIn 0 (.cons (.log { mtype := "t2" }) .nil))
+  (.cons (.finish 0 none) .nil))))))
+
+theorem exHypsE : exProgE.structured false false = true ∧ (denB exEnvX none false exProgE ⟨0, 0, 0⟩ []).wf = true ∧
+    F.clean (denB exEnvX none false exProgE ⟨0, 0, 0⟩ []).f = true := by decide +kernel
+
+/-- the same program spelled with `with` blocks (`b` fails by raising, caught outside) -/
+def exProgEW : Block :=
+  .cons (.withAction false { atype := "a", fields := [("x", .nat 1)], sers := some ([("x", 7)], [("y", 8)]) }
+    (.cons (.log { mtype := "m" })
+    (.cons (.addSuccess none [("y", .nat 2)])
+    (.cons (.withAction false { atype := "w" } (.cons (.log { mtype := "in-w" }) .nil))
+    (.cons (.tryCatch (.cons (.withAction false { atype := "b" } (.cons (.log { mtype := "in-b" }) (.cons (.raise 1) .nil))) .nil) .nil)
+    (.cons (.log { mtype := "after-b" }) .nil))))))
+  (.cons (.withAction true { atype := "t" } (.cons (.log { mtype := "t1" }) (.cons (.log { mtype := "t2" }) .nil)))
+  .nil)
+
+-- both spellings put exactly the same 14 dicts on the wire (computed on the model of the real code) …
+example : (execB exEnvX none {} (.cons (.addDests [1, 2]) exProgE)).1.stage =
+      (execB exEnvX none {} (.cons (.addDests [1, 2]) exProgEW)).1.stage ∧
+    (execB exEnvX none {} (.cons (.addDests [1, 2]) exProgE)).1.stage.length = 14 ∧
+    (execB exEnvX none {} (.cons (.addDests [1, 2]) exProgE)).2 = .ok := by decide +kernel
+
+-- … have the same denotation …
+example : (F.tops (denB exEnvX none false exProgE ⟨0, 0, 0⟩ []).f).flatMap (fun e => T.top exEnvX exσ e.1 e.2) =
+      (F.tops (denB exEnvX none false exProgEW ⟨0, 0, 0⟩ []).f).flatMap (fun e => T.top exEnvX exσ e.1 e.2) ∧
+    (specOf (denB exEnvX none false exProgE ⟨0, 0, 0⟩ []).f).map (fun e => PM.tmsgs e.1 e.2) =
+      (specOf (denB exEnvX none false exProgEW ⟨0, 0, 0⟩ []).f).map (fun e => PM.tmsgs e.1 e.2) := by
+  decide +kernel
+
+-- … which is what was staged (by the theorem), and parses back to the two performed trees
+example : (execB exEnvX none {} (.cons (.addDests [1, 2]) exProgE)).1.stage =
+    (F.tops (denB exEnvX none false exProgE ⟨0, 0, 0⟩ []).f).flatMap (fun e => T.top exEnvX exσ e.1 e.2) :=
+  (emitted_is_forest exOKX (by decide) exProgE exHypsE.1 exHypsE.2.1).1
+
+example : ((execB exEnvX none {} (.cons (.addDests [1, 2]) exProgE)).1.stage.filterMap toPMsg).map
+      (fun m => (m.uuid, m.level, m.atype, m.status)) =
+    [("u0", [1], some "a", some "started"), ("u0", [2], none, none),
+     ("u0", [3, 1], some "w", some "started"), ("u0", [3, 2], none, none), ("u0", [3, 3], some "w", some "succeeded"),
+     ("u0", [4, 1], some "b", some "started"), ("u0", [4, 2], none, none), ("u0", [4, 3], some "b", some "failed"),
+     ("u0", [5], none, none), ("u0", [6], some "a", some "succeeded"),
+     ("u1", [1], some "t", some "started"), ("u1", [2], none, none), ("u1", [3], none, none),
+     ("u1", [4], some "t", some "succeeded")] := by decide +kernel
+
+example : ∃ out, PM.parseStream ((execB exEnvX none {} (.cons (.addDests [1, 2]) exProgE)).1.stage.filterMap toPMsg).reverse = .ok out ∧
+    Reconstructs (specOf (denB exEnvX none false exProgE ⟨0, 0, 0⟩ []).f) out := by
+  obtain ⟨l, h1, _, _, _, hp⟩ := roundtrip (ds := [1, 2]) exOKX exProgE exHypsE.1 exHypsE.2.1 exHypsE.2.2
+  have : (execB exEnvX none {} (.cons (.addDests [1, 2]) exProgE)).1.stage.filterMap toPMsg = l := by
+    have := congrArg (List.filterMap id) h1
+    simpa [List.filterMap_map, Function.comp_def] using this
+  rw [this]
+  exact hp _ (List.reverse_perm l)
+
+-- a segment body that raises is outside the fragment: `wf` says so
+example : (denB exEnvX none false
+    (.cons (.startAs 0 false { atype := "a" }) (.cons (.inContext 0 (.cons (.raise 1) .nil)) (.cons (.finish 0 none) .nil))) ⟨0, 0, 0⟩ []).wf
+      = false := by decide +kernel
 
 /-- a concrete `JsonView` for dicts of natural numbers (keys as code points, values as JSON integers) -/
 def natView : JsonView where
